@@ -28,7 +28,7 @@ ASSUMPTIONS = [
 ]
 SHARDS = {"quick": 4, "thorough": 16}
 MIN_REACH = {
-    "contract_evals_rs_update": {"quick": 100000, "thorough": 3000000},
+    "contract_evals_rs_update": {"quick": 80000, "thorough": 3000000},
     "contract_evals_rc_update": {"quick": 30000, "thorough": 500000},
     "estimate_runs": {"quick": 300, "thorough": 10000},
     "interrupted_estimates": {"quick": 10, "thorough": 150},
